@@ -108,7 +108,7 @@ TEXTS = {
                  "redirects reaches an entry). Also: at most one entry per specifier, no pending entry, recorded "
                  "dependencies are the parser's declaration adjusted only by graph kind. The converse (nothing "
                  "unreachable is present) is proved for stage B1 on worlds whose answers report the requested specifier "
-                 "as the final one and whose modules declare no asset imports, without npm resolver (C01_b1_sound, an "
+                 "as the final one and whose modules declare no asset imports, with or without an npm resolver (C01_b1_sound, an "
                  "invariant over every loop step); it is refuted outside those hypotheses (F-C01c: an asset-request "
                  "error replaces a module entry; aliases; the registry stage: F-C01a/b) and judged per case on every "
                  "alias-free world by procedures proved sound (C01_b1_judge_sound, C01_registry_judge_sound): PARTIAL."),
